@@ -25,6 +25,14 @@ PRINTABLE = set(range(0x20, 0x7F))
 
 
 def make_case(i, rng, tier):
+    if rng.random() < 0.0003:
+        # a capture of more than 65536 events (hashing a file through the TPM in 1 kB pieces): printers that work in
+        # batches meet a buffer that straddles a batch
+        inp = common.fat_stream(rng, rng.choice((66000, 70000, 132000)))
+        p = common.spec("pretty", inp["root"], inp["data"], None, None, strict=rng.random() < 0.5, consumer="pretty")
+        e = dict(p, id="events", consumer="events")
+        return {"input": {"root": inp["root"], "cc": None, "enc": None, "label": inp["label"], "family": "wellformed", "orig": ""},
+                "faults": [], "tasks": [p, e], "schedule": {"policy": "sequential"}}
     inp, data, recs, fam = common.gen_malformed(rng, i, p_wellformed=0.45)
     strict = rng.random() < 0.4
     p = common.spec("pretty", inp["root"], data, inp["cc"], inp["enc"], strict=strict, consumer="pretty")
